@@ -46,14 +46,6 @@ Theorem C15_list_replacement_needs_bump : forall (l : txlist) (t : tx) (bump : Z
 Proof. exact tl_add_bump. Qed.
 Print Assumptions C15_list_replacement_needs_bump.
 
-(* 2b refuted: a reachable state where pool.all is not pending ∪ queue, and the orphan cannot be resubmitted *)
-Theorem C15_all_is_union_refuted :
-  exists p, run (new_pool cfg_tiny 1 [(0, (0, 100000000))] 1000000) leak_history = Ok p /\
-            all_is_unionb p = false /\ pending p = [] /\ queue p = [] /\
-            exists p', add_remote o0 p (mk 2 0 1 100) = Ok (Some EKnown, p').
-Proof. exact all_is_union_refuted. Qed.
-Print Assumptions C15_all_is_union_refuted.
-
 (* 1 refuted: a reachable state whose pending list has a gap (nonces 0,2,3 with state nonce 0) *)
 Theorem C15_pending_executable_refuted :
   exists p, run (new_pool cfg_tiny 1 [(0, (2, 100000000))] 1000000) gap_history = Ok p /\
